@@ -462,6 +462,38 @@ def run_model_case(acc, g, start, route, inputs, which=('json', 'pickle', 'sourc
     return fails, stats, model
 
 
+def do_corpus_case(acc, idx, origin):
+    """fixed grammar TEXTS with forms our grammar AST has no node for (left/right joins, deprecated syntax): every
+    serialisation route must still reload them to an equivalent parser"""
+    import tatsu
+    from .c13 import CORPUS
+    name, text, inputs = CORPUS[idx % len(CORPUS)]
+    try:
+        model = tatsu.compile(text, name='T')
+    except Hang:
+        raise
+    except Exception as e:  # noqa: BLE001
+        acc.count('route_failed:corpus:' + type(e).__name__)
+        return
+    start = model.rules[0].name
+    fails = []
+    stats = collections.Counter()
+    check_json(acc, model, start, inputs, fails, stats)
+    check_pickle(acc, model, start, inputs, fails, stats)
+    check_source(acc, model, text, start, inputs, fails, stats)
+    acc.count('programs')
+    acc.count('route:corpus')
+    for k in ('json_reloaded', 'pickle_reloaded', 'source_reloaded'):
+        acc.count(k, stats.get(k, 0))
+    acc.nontriv('corpus', name)
+    if fails:
+        acc.count('disagreements_checked', len(fails))
+        for fam in sorted({f for f, _, _ in fails}):
+            k, d = next((k, d) for f, k, d in fails if f == fam)
+            acc.violation(f'{fam}/corpus:{name}', f'{k}: {d} | grammar text {text!r}',
+                          {'kind': 'corpus', 'idx': idx, 'origin': origin})
+
+
 def witness(g, start, route, inputs, origin, **extra):
     w = {'kind': 'model', 'grammar': L.to_json(g), 'grammar_text': MG.gtext(g), 'start': start, 'route': route,
          'inputs': list(inputs), 'origin': origin}
@@ -994,6 +1026,14 @@ def route_for(i):
 def run_shard(desc, acc):
     if not MON.install():
         acc.note('step monitor unavailable: ' + str(MON.note))
+    if desc['shard'] == 0:
+        from .c13 import CORPUS
+        for idx in range(len(CORPUS)):
+            try:
+                with guard():
+                    do_corpus_case(acc, idx, {'corpus': idx})
+            except Hang:
+                acc.count('hang_guard_fired')
     for i in range(desc['n']):
         rng = random.Random(h64('C14', desc['seed'], desc['shard'], i))
         route = route_for(i)
@@ -1033,6 +1073,8 @@ def replay(w, acc):
             return
         if fails:
             attribute(acc, g, w['start'], w['route'], w['inputs'], fails, {'mode': 'replay'})
+    elif kind == 'corpus':
+        do_corpus_case(acc, w['idx'], {'mode': 'replay'})
     elif kind == 'shape':
         do_shape_case(acc, random.Random(1), {'mode': 'replay'}, shape=w['shape'], arg=w.get('arg'), text=w['text'])
     elif kind in ('asjson-model', 'asjson-parse'):
